@@ -71,4 +71,16 @@ TEXTS = {
         level_text="Exploration over seeded checkpoint states, change batches (incl. same-value rewrites and delete/re-add of identical content), collapse levels, optional GC pass and both rollback entry points, with exact storage accounting (nothing of the checkpoint lost, nothing only the rolled-back commit wrote left).",
         level_note="Trusted: raw key-set snapshots of the simulated store. Known finding listed: shared stored nodes are deleted by GC.",
     ),
+    "C10": dict(
+        engine="wmptsim", design_ref="DESIGN.md section 6 (C10)",
+        technique="deterministic simulation with fault injection on the prover->verifier channel: seeded contents, honest proofs for every block, seeded structured tampering sequences (swarm-selected kinds) with a soundness oracle; ddmin-minimised replays",
+        level_text="Exploration: the honest half is checked for every block of every sampled content; the adversarial half samples tampering sequences (13 structural operators) against a soundness oracle that only fires when the trusted root is reproduced with a foreign value.",
+        level_note="Trusted: harness/refwmpt for the trusted root and the true owner. Known finding listed: sibling re-weighting forges ownership (format-level defect).",
+    ),
+    "C12": dict(
+        engine="wmptsim", design_ref="DESIGN.md section 6 (C12)",
+        technique=SIM + ": partial trie vs. full trie under mirrored updates (refinement between two instances of the real code plus the reference weight), across source shapes, collapse levels and both sides of the parallel-collection threshold",
+        level_text="Exploration over seeded source tries, requested key sets and follow-up update/delete sequences; each mirrored step compares root and weight of the partial and the full trie.",
+        level_note="Trusted: the source trie itself as the reference (its own correctness is C09's subject). No fault kind applies.",
+    ),
 }
